@@ -17,9 +17,12 @@ DOCS = [
     {"a": [{"x": 3, "y": 4}, {"x": 5}, {"x": 3, "y": 4}], "101": {"205": 1, "7": 2}, "c": [5, [2, 3]], "z": 0},
     {"rows": {"0": {"v": 1}, "1": {"v": 0}}, "e": {}, "f": [], "n": None},
     {"s": '{"a": [1, 2], "name": "x"}', "t": "[10, 20, 30]", "u": "plain", "w": "{not json", "a": [1]},
+    # arrays long enough for indices with different numbers of digits (rank order is not text order)
+    {"a": {"foo": list(range(100, 112)), "bar": 7}, "long": [{"x": i} for i in range(12)]},
 ]
-MATCH_QUERIES = ["$.*", "$", "$.users[*]", "$[*]", "$.users[0]", "$.a", "$.a[*]", "$..b", "$.rows", "$.rows.*", "$.users[*].tags", "$.z", "$.n", "$..*"]
+MATCH_QUERIES = ["$.long", "$.*", "$", "$.users[*]", "$[*]", "$.users[0]", "$.a", "$.a[*]", "$..b", "$.rows", "$.rows.*", "$.users[*].tags", "$.z", "$.n", "$..*"]
 REL = ["name", "age", "tags", "tags[0]", "tags[1]", "addr.city", "addr.zip", "addr", "a", "a[0]", "a[2]", "a[1]", "a[0, 2]", "a[1:]", "b.c", "b.c[1][0]", "b.d", "b", "*", "..x", "x", "y",
+       "foo[2]", "foo[10]", "foo[8:12]", "foo[1, 11]", "long[2].x", "long[10].x", "long[9:11]", "[9]", "[10].x", "[2, 10].x",
        "[0]", "[1]", "[2].x", "[0].y", "[*].x", "c", "c[1]", "c[1][0]", "['101']", "['101']['205']", "['0']", "['0'].v", "v", "nope", "z"]
 
 
